@@ -19,7 +19,7 @@ GridOK(i) == (i.mask \in {"M", "N", "E"}) => i.grid \in {"g", "g2", "h"}     \* 
 PInfos == {i \in {Info(t, g, u, m, f) : t \in {"none", "t"}, g \in {"none", "g", "g2", "h", "nogrid"},
                     u \in {"none", "m", "km", "s"}, m \in {"flex", "nomask", "M", "N", "E", "E0"}, f \in {"absent", "none", "v"}} : GridOK(i)}
 CInfos == {i \in {Info(t, g, u, m, f) : t \in {"none", "t"}, g \in {"none", "g", "g2", "h", "nogrid"},
-                    u \in {"none", "m", "km", "s"}, m \in {"flex", "nomask", "M", "N", "E", "E0"}, f \in {"absent", "v", "w"}} : GridOK(i)}
+                    u \in {"none", "m", "km", "s"}, m \in {"flex", "nomask", "M", "N", "E", "E0"}, f \in {"absent", "none", "v", "w"}} : GridOK(i)}
 
 SameLocations(a, b) == a = b \/ {a, b} = {"g", "g2"}
 Dim(u) == IF u = "s" THEN "time" ELSE "length"
@@ -45,7 +45,7 @@ Accepts(self, inc, downstream) ==
 Exchange(po, ci) ==
   IF ~Accepts(po, ci, TRUE) THEN [res |-> "FinamMetaDataError", out |-> po, inp |-> ci]
   ELSE IF (po.grid = "none" /\ ci.grid = "none") \/ (po.time = "none" /\ ci.time = "none")
-          \/ (po.units = "none" /\ ci.units = "none") \/ (po.foo = "none" /\ ci.foo = "absent")
+          \/ (po.units = "none" /\ ci.units = "none") \/ (po.foo = "none" /\ ci.foo \in {"absent", "none"})
        THEN [res |-> "FinamMetaDataError", out |-> po, inp |-> ci]
   ELSE LET out == [po EXCEPT !.grid = IF @ = "none" THEN ci.grid ELSE @,
                              !.time = IF @ = "none" THEN ci.time ELSE @,
@@ -57,7 +57,7 @@ Exchange(po, ci) ==
                          grid |-> IF ci.grid = "none" THEN out.grid ELSE ci.grid,
                          units |-> IF ci.units = "none" THEN out.units ELSE ci.units,
                          mask |-> out.mask,
-                         foo |-> IF ci.foo = "absent" THEN out.foo ELSE ci.foo]]
+                         foo |-> IF ci.foo \in {"absent", "none"} THEN out.foo ELSE ci.foo]]
 
 (* the statement: conflicts and unfillable fields *)
 GridConflict(po, ci) == po.grid # "none" /\ ci.grid # "none" /\ ~SameLocations(po.grid, ci.grid)
@@ -67,7 +67,7 @@ MaskConflict(po, ci) ==
     [] ci.mask = "nomask" -> po.mask # "nomask"
     [] OTHER -> ~Specified(po.mask) \/ NormMask(po.mask) # NormMask(ci.mask)
 Unfillable(po, ci) == (po.grid = "none" /\ ci.grid = "none") \/ (po.time = "none" /\ ci.time = "none")
-                      \/ (po.units = "none" /\ ci.units = "none") \/ (po.foo = "none" /\ ci.foo = "absent")
+                      \/ (po.units = "none" /\ ci.units = "none") \/ (po.foo = "none" /\ ci.foo \in {"absent", "none"})
 
 (* C07 as theorems over the whole product of producer / consumer infos *)
 ASSUME \A po \in PInfos, ci \in CInfos :
@@ -81,6 +81,8 @@ ASSUME \A po \in PInfos, ci \in CInfos :
         /\ (po.grid = "none" => r.out.grid = ci.grid) /\ (ci.grid = "none" => r.inp.grid = r.out.grid)
         /\ (po.units = "none" => r.out.units = ci.units) /\ (ci.units = "none" => r.inp.units = r.out.units)
         /\ (po.time = "none" => r.out.time = ci.time) /\ (ci.time = "none" => r.inp.time = r.out.time)
+        /\ (po.foo = "none" => r.out.foo = ci.foo) /\ (ci.foo = "none" => r.inp.foo = r.out.foo)
+        /\ r.inp.foo # "none" /\ r.out.foo # "none"
 
 Cases == {[po |-> po, ci |-> ci, via |-> v] : po \in PInfos, ci \in CInfos, v \in {"direct", "pass"}}
 (* two consumers on one output: the second is checked against what the first filled in *)
